@@ -23,6 +23,16 @@ def run(patch, props, keep=False, tier="quick"):
         r = subprocess.run(["patch", "-p1", "-i", patch], cwd=scratch, capture_output=True, text=True)
         if r.returncode != 0:
             print("PATCH DOES NOT APPLY", r.stderr[-500:]); return None
+    # the scratch tree must really differ from /repo (a patch that silently did not apply would be "silent" for free)
+    def _digest(root):
+        h = hashlib.sha256()
+        for d, ds, fs in os.walk(os.path.join(root, "src")):
+            ds.sort()
+            for f in sorted(fs):
+                h.update(f.encode()); h.update(open(os.path.join(d, f), "rb").read())
+        return h.hexdigest()
+    if _digest(scratch) == _digest("/repo"):
+        print("PATCH DID NOT CHANGE THE TREE"); return None
     env = dict(os.environ, VERIF_REPO=scratch)
     out = {}
     for p in props:
